@@ -1,0 +1,14 @@
+//go:build verif
+
+package frozenfunds
+
+// VerifLoadedHeights lists every height held in the in-memory cache (loaded or dirty).
+func (f *FrozenFunds) VerifLoadedHeights() []uint64 {
+	f.lock.RLock()
+	defer f.lock.RUnlock()
+	res := make([]uint64, 0, len(f.list))
+	for k := range f.list {
+		res = append(res, k)
+	}
+	return res
+}
